@@ -11,14 +11,28 @@ open Aqv Aqv.Proto Aqv.Model.Rpc Aqv.Gen.Rpc
     S <kind> <env> <cfg> <transport> <key> <variant>
                                               go: <signed|entered|quiet> <outcome> <evidence> <delta>
 
-  <env> = five bits (inproc ipc http ws all), <cfg> = h=<mods|->;w=<mods|->;a=<0|1>, <key> = ns.name(=|~)rcvr.GoName.
+  <env> = five comma-separated raw values (inproc,ipc,http,ws,all): `u` unset | `s<hex>` present with that value, <cfg> = h=<mods|->;w=<mods|->;a=<0|1>, <key> = ns.name(=|~)rcvr.GoName.
   The judgements use the definitions the theorems of Aqv.Props.C18 are about: `exposed`, `signs`, `optedIn`.
 -/
 
-def parseEnv (s : String) : Option Env :=
-  match s.toList.map (· == '1') with
-  | [a, b, c, d, e] => some ⟨a, b, c, d, e⟩
+/-- one variable: `u` = unset, `s<hex>` = present with that value (hex of the bytes; `s` alone = present but empty). -/
+def parseVal (s : String) : Option (Option String) :=
+  match s.toList with
+  | ['u'] => some none
+  | 's' :: hex =>
+    match bytesOfHex (if hex.isEmpty then "-" else String.ofList hex) with
+    | some bs => some (some (String.ofList (bs.map (fun b => Char.ofNat b.toNat))))
+    | none => none
   | _ => none
+
+/-- the raw environment: five comma-separated values in the order inproc, ipc, http, ws, all. -/
+def parseRaw (s : String) : Option RawEnv :=
+  match (s.splitOn ",").map parseVal with
+  | [some a, some b, some c, some d, some e] => some ⟨a, b, c, d, e⟩
+  | _ => none
+
+/-- the flags as the documented reading gives them (= the model of sense.EnvBool, theorem envBool_eq_envOn). -/
+def parseEnv (s : String) : Option Env := (parseRaw s).map RawEnv.read
 
 def parseKind : String → Option Kind
   | "pow" => some .pow
